@@ -1,5 +1,6 @@
 import TcheranVerif.Proofs.LegalPos
 import TcheranVerif.Proofs.GenerateNodup
+import TcheranVerif.Proofs.GameInv
 import TcheranVerif.Props.C07
 /-!
 # C01 — legal move generation is exact
@@ -25,6 +26,10 @@ The two slider lookups enter through `SliderTables`; the `_tables` corollaries d
 `Props.C07` and therefore inherit that file's one `native_decide` (the 107,648-case table sweep).
 * `generate_nodup` — no move occurs twice in what the two stages return (each stage is duplicate-free by
   construction; the sixteen stages are told apart by mover, flag and shape of the move).
+* `legal_closed` — the positions satisfying the invariant behind `PosH` (one king a side, the side not to
+  move not in check, e.p. target and castling rights consistent with the placement) are closed under the
+  legal moves of the rules; `game_generate_exact` — hence at **every position of every game** of legal moves
+  from a legal start the generator is exact and duplicate-free, with `make_move` supplying the positions.
 Not proved: that positions of real games never hold more than 218 legal moves (the `MoveList` capacity).
 -/
 namespace Tcheran.Props.C01
@@ -95,6 +100,18 @@ theorem check_verdict_legal (T : SliderTables) (g : Game) (hc : Consistent g.boa
   obtain ⟨k, h⟩ := posH_of_legal g hc hl
   exact kingInCheck_agrees T g.board hc g.player k (kingSq_unique _ _ k h.ctx.king)
 
+/-- legal positions are closed under legal moves -/
+theorem legal_closed (pos : Rules.Pos) (m : Move) (h : GInv pos) (hl : m ∈ legalMoves pos) :
+    GInv (Rules.apply pos m) := ginv_apply pos m h hl
+
+/-- exactness at every position of every game of legal moves from a legal start -/
+theorem game_generate_exact (T : SliderTables) (c : Cfg) (g : Game) (ms : List Move) (pos' : Rules.Pos)
+    (hc : Consistent g.board) (hl : legalPos (ofGame g) = true) (hp : LegalPath (ofGame g) ms pos') :
+    ∃ g', makeMoves c g ms = some g' ∧ ofGame g' = pos' ∧
+      ∃ caps cache quiets, generateCaptures g' = some (caps, cache) ∧ generateQuiets g' cache = some quiets ∧
+        (caps ++ quiets).Nodup ∧ ∀ m, m ∈ caps ++ quiets ↔ m ∈ legalMoves pos' :=
+  Tcheran.game_generate_exact T c g ms pos' hc hl hp
+
 /-- the slider tables of the engine are the ray walks (`Props.C07`; carries its `native_decide`) -/
 theorem sliderTables : SliderTables :=
   ⟨Tcheran.Props.C07.rook_table_geometric, Tcheran.Props.C07.bishop_table_geometric⟩
@@ -134,6 +151,8 @@ end Tcheran.Props.C01
 #print axioms Tcheran.Props.C01.generate_exact_legal
 #print axioms Tcheran.Props.C01.generateLegal_exact
 #print axioms Tcheran.Props.C01.check_verdict_legal
+#print axioms Tcheran.Props.C01.legal_closed
+#print axioms Tcheran.Props.C01.game_generate_exact
 #print axioms Tcheran.Props.C01.sliderTables
 #print axioms Tcheran.Props.C01.generate_exact_tables
 #print axioms Tcheran.Props.C01.check_verdict_tables
